@@ -50,6 +50,10 @@ type pxConn struct {
 	reported  bool
 	selfClose bool
 }
+type pxExtra struct {
+	e  int
+	br string
+}
 type pxOut struct {
 	label string
 	data  []byte
@@ -113,6 +117,7 @@ type pxCase struct {
 	barrier  *net.UDPConn
 	barAddr  string
 	actual   map[int]string // event -> branch the proxy generated
+	more     []pxExtra      // further branches generated during the same event
 	nextConn int
 	notes    []string
 }
@@ -265,6 +270,11 @@ func (pc *pxCase) learnBranch(e int, msg []byte) {
 				known = true
 			}
 		}
+		for _, x := range pc.more {
+			if x.br == br {
+				known = true
+			}
+		}
 		if known {
 			continue
 		}
@@ -273,7 +283,9 @@ func (pc *pxCase) learnBranch(e int, msg []byte) {
 		}
 		pxSeenBranches[br] = true
 		if _, dup := pc.actual[e]; dup {
-			pc.notes = append(pc.notes, "two-branches-in-one-event")
+			// several requests pipelined in one TCP chunk: one fresh branch each; the model uses the
+			// event's stand-in for all of them
+			pc.more = append(pc.more, pxExtra{e, br})
 			continue
 		}
 		pc.actual[e] = br
@@ -283,6 +295,9 @@ func (pc *pxCase) learnBranch(e int, msg []byte) {
 func (pc *pxCase) canon(b []byte) []byte {
 	for e, a := range pc.actual {
 		b = bytes.ReplaceAll(b, []byte(a), []byte(pxPlaceholder(e)))
+	}
+	for _, x := range pc.more {
+		b = bytes.ReplaceAll(b, []byte(x.br), []byte(pxPlaceholder(x.e)))
 	}
 	// the OS-chosen local port of a connection the proxy dialled shows up when the proxy names that
 	// transport in a Via / Record-Route: the model writes such a transport without a port
@@ -434,7 +449,7 @@ func runProxyCase(k *toks, o *out) {
 		// memory obtained from the OS while the case ran, out of proportion to what was sent (C08)
 		var ms1 runtime.MemStats
 		runtime.ReadMemStats(&ms1)
-		if ms1.HeapSys > ms0.HeapSys+(768<<20) {
+		if ms1.HeapSys > ms0.HeapSys+(300<<20) {
 			o.s("notes")
 			o.s(fmt.Sprintf("memory-balloon:%dMiB", (ms1.HeapSys-ms0.HeapSys)>>20))
 		}
